@@ -49,16 +49,20 @@ PATTERNS = {
 
 
 @scenario
-def adjointness(ctx, dim, n_components, pattern, grid):
+def adjointness(ctx, dim, n_components, pattern, grid, dx=0.125, via="generators"):
     m = _comm(dim)
     grid = tuple(grid)
     idx_list = PATTERNS[dim][pattern]
     n = len(idx_list)
     # nearest index array is (dim, n) with component 0 = x index
     nearest = np.array(idx_list, dtype=int).T.copy()
-    dx = 0.125
-    interp = getattr(m, f"generate_eulerian_to_lagrangian_grid_interpolation_kernel_{dim}d")(dx=dx, num_lag_nodes=n, interp_kernel_width=2, n_components=n_components)
-    spread = getattr(m, f"generate_lagrangian_to_eulerian_grid_interpolation_kernel_{dim}d")(num_lag_nodes=n, interp_kernel_width=2, n_components=n_components)
+    if via == "class":
+        # the documented entry point: the communicator object (and whatever it shares with other communicators)
+        comm = getattr(m, f"EulerianLagrangianGridCommunicator{dim}D")(dx=ctx.real_t(dx), eul_grid_coord_shift=ctx.real_t(dx / 2), num_lag_nodes=n, interp_kernel_width=2, real_t=ctx.real_t, n_components=n_components)
+        interp, spread = comm.eulerian_to_lagrangian_grid_interpolation_kernel, comm.lagrangian_to_eulerian_grid_interpolation_kernel
+    else:
+        interp = getattr(m, f"generate_eulerian_to_lagrangian_grid_interpolation_kernel_{dim}d")(dx=dx, num_lag_nodes=n, interp_kernel_width=2, n_components=n_components)
+        spread = getattr(m, f"generate_lagrangian_to_eulerian_grid_interpolation_kernel_{dim}d")(num_lag_nodes=n, interp_kernel_width=2, n_components=n_components)
     W = ctx.array("W", (4,) * dim + (n,))
     if n_components == 1:
         u, E0, F, out = ctx.array("u", grid), ctx.array("E0", grid), ctx.array("F", (n,)), ctx.array("lag_prior", (n,))
@@ -120,7 +124,7 @@ def force_and_torque(ctx, dim, kernel, n_components, case):
     gen_support(dx=dx, eul_grid_coord_shift=shift, num_lag_nodes=n, interp_kernel_width=2)(support, nearest, pos)
     (gen_pesk if kernel == "peskin" else gen_cos)(dx=dx, interp_kernel_width=2, real_t=ctx.real_t)(weights, support)
     ctx.disable_pruning()
-    if ctx.sym and kernel == "peskin":
+    if ctx.sym:
         flat = list(np.asarray(weights).reshape(-1))
         weights = weights.copy()
         weights.reshape(-1)[...] = merge_equal_radicands(ctx, flat)
@@ -168,12 +172,17 @@ def main():
             for pattern in PATTERNS[dim]:
                 for nc in (1, dim):
                     chk.add(adjointness, real_t=rt, dim=dim, n_components=nc, pattern=pattern, grid=grid)
+            # kernels generated / communicators constructed earlier in the same process (other spacing, component count, marker count)
+            for nc in (1, dim):
+                for via in ("generators", "class"):
+                    chk.add(adjointness, real_t=rt, dim=dim, n_components=nc, pattern="overlapping", grid=grid, dx=0.25, via=via,
+                            _earlier=[{"dx": 0.125}, {"n_components": (dim if nc == 1 else 1)}, {"pattern": "edge", "dx": 0.5}])
             for kernel in ("peskin", "cosine"):
                 cases = [["interior"] * dim, ["zero"] + ["interior"] * (dim - 1)] if chk.quick else [["interior"] * dim, ["zero"] + ["interior"] * (dim - 1), ["interior"] * (dim - 1) + ["zero"], ["zero"] * dim]
                 for case in cases:
                     chk.add(force_and_torque, real_t=rt, dim=dim, kernel=kernel, n_components=dim, case=case)
                 chk.add(force_and_torque, real_t=rt, dim=dim, kernel=kernel, n_components=1, case=["interior"] * dim)
-    chk.bounds = ["adjointness: weights, Eulerian field, Lagrangian field and prior Eulerian content all symbolic; <= 3 markers in the enumerated index patterns; grids (7,8)/(6,7,8)",
+    chk.bounds = ["later-object instances: kernels for another dx / component count / marker count are generated (directly and through the communicator class) and called first in the same process", "adjointness: weights, Eulerian field, Lagrangian field and prior Eulerian content all symbolic; <= 3 markers in the enumerated index patterns; grids (7,8)/(6,7,8)",
                   "force/torque: 2 markers with symbolic offsets in (0,1) (thorough: also on cell centres), reference point symbolic"]
     chk.outside = ["more markers (the kernels loop over markers; contributions add)", "rounding", "markers within two cells of the boundary"]
     chk.assumptions = ["exact real arithmetic", "sqrt/cos axioms as in C06"]
